@@ -194,6 +194,12 @@ def eval_adverb_each_pair(f, a, op, backend):
     return backend.kg_asarray([f(x,y) for x,y in zip(a[::],a[1::])])
 
 
+def _count_is_zero(a):
+    """The repetition count of Iterate / Scan-Iterating has reached zero (a computed count is a NumPy integer
+    or a 0-dimensional array, which safe_eq does not take for the integer 0)."""
+    return safe_eq(a, 0) or (getattr(a, 'ndim', None) == 0 and bool(a == 0))
+
+
 def eval_dyad_adverb_iterate(f, a, b):
     """
 
@@ -207,7 +213,7 @@ def eval_dyad_adverb_iterate(f, a, b):
         Example: 3{1,x}:*[]  -->  [1 1 1]
 
     """
-    while not safe_eq(a, 0):
+    while not _count_is_zero(a):
         b = f(b)
         a = a - 1
     return b
@@ -418,10 +424,10 @@ def eval_adverb_scan_iterating(f, a, b, backend):
         Example: 3{1,x}\*[]  -->  [[] [1] [1 1] [1 1 1]]
 
     """
-    if safe_eq(a,0):
+    if _count_is_zero(a):
         return b
     r = [b]
-    while not safe_eq(a, 0):
+    while not _count_is_zero(a):
         b = f(b)
         r.append(b)
         a = a - 1
